@@ -131,6 +131,11 @@ func (blk *BlockT) append(tree *ParserT, this fn.Property, next fn.Property) err
 		})
 
 	default:
+		if tree.charPos+1 >= len(tree.expression) {
+			// the statement parser can stop one rune past the end of the code (eg an
+			// unterminated lambda index): never slice beyond the code
+			tree.charPos = len(tree.expression) - 1
+		}
 		blk.Functions = append(blk.Functions, fn.FunctionT{
 			Raw:        tree.expression[:tree.charPos+1],
 			Command:    tree.statement.command,
